@@ -108,7 +108,15 @@ func acceptFor(key []byte) []byte {
 
 func (c *dlConn) Read(p []byte) (int, error) {
 	if c.rd == nil {
-		resp := bytes.ReplaceAll(c.resp, []byte("@ACCEPT@"), acceptFor(keyOf(c.w.Bytes())))
+		acc := acceptFor(keyOf(c.w.Bytes()))
+		resp := bytes.ReplaceAll(c.resp, []byte("@ACCEPT@"), acc)
+		// @ACCEPx@: the right accept with the padding bits of its last digit changed (x = 1, 2, 3)
+		const alphabet = "ABCDEFGHIJKLMNOPQRSTUVWXYZabcdefghijklmnopqrstuvwxyz0123456789+/"
+		for x := 1; x <= 3; x++ {
+			alt := append([]byte(nil), acc...)
+			alt[26] = alphabet[strings.IndexByte(alphabet, alt[26])^x]
+			resp = bytes.ReplaceAll(resp, []byte(fmt.Sprintf("@ACCEP%d@", x)), alt)
+		}
 		c.rd, _ = mkReader(resp, c.k, c.fin)
 	}
 	return c.rd.Read(p)
@@ -230,7 +238,8 @@ func genC10(tier string, r *rng) {
 	variants := map[string][]string{
 		"Upgrade":              {" websocket", " WebSocket", "websocket", "\twebsocket\t", " websocket2", " h2c, websocket", "", " web socket"},
 		"Connection":           {" Upgrade", " upgrade", " UPGRADE", " keep-alive, Upgrade", " Upgrade, keep-alive", " keep-alive", "", " Upgradex"},
-		"Sec-WebSocket-Accept": {" @ACCEPT@", "@ACCEPT@", " @ACCEPT@ ", " s3pPLMBiTxaQ9kYGzzhZRbK+xOo=", " @ACCEPT@x", "", " " + strings.Repeat("A", 27) + "=", " @ACCEPT@, @ACCEPT@"},
+		"Sec-WebSocket-Accept": {" @ACCEPT@", "@ACCEPT@", " @ACCEPT@ ", " s3pPLMBiTxaQ9kYGzzhZRbK+xOo=", " @ACCEPT@x", "", " " + strings.Repeat("A", 27) + "=", " @ACCEPT@, @ACCEPT@",
+			" @ACCEP1@", " @ACCEP2@", " @ACCEP3@", " @ACCEPT@=", " =@ACCEPT@"},
 	}
 	names := []string{"Upgrade", "Connection", "Sec-WebSocket-Accept"}
 	for i, nm := range names {
